@@ -987,6 +987,11 @@ class PassWorld(World):
                 args_ = e.get("args") or []
                 if e.get("parsed") and args_ and args_[0].get("k") == "Lit" and args_[0].get("lit") == "str":
                     fmt = str(args_[0].get("value"))
+                    # (the raw text follows renamings done by the normaliser; the parsed literal may not)
+                    raw_ = str(e.get("raw") or "")
+                    m_raw = __import__("re").match(r'\s*"((?:[^"\\]|\\.)*)"', raw_)
+                    if m_raw and "\\" not in m_raw.group(1):
+                        fmt = m_raw.group(1)
                     rest = list(args_[1:])
                     out_, ok_, i_ = "", True, 0
                     import re as _re
